@@ -995,10 +995,11 @@ class Simplifier(pysmt.walkers.DagWalker):
     def walk_str_to_int(self, formula: FNode, args: List[FNode], **kwargs) -> FNode:
         s = args[0]
         if s.is_string_constant():
-            try:
-                return self.manager.Int(int(s.constant_value()))
-            except ValueError:
-                return self.manager.Int(-1)
+            value = cast(str, s.constant_value())
+            # SMT-LIB: only non-empty sequences of digits denote a number
+            if len(value) > 0 and all(c in "0123456789" for c in value):
+                return self.manager.Int(int(value))
+            return self.manager.Int(-1)
         return self.manager.StrToInt(s)
 
     def walk_int_to_str(self, formula: FNode, args: List[FNode], **kwargs) -> FNode:
